@@ -17,7 +17,7 @@ VERIF = os.path.dirname(os.path.abspath(__file__))
 REPO = os.environ.get('VERIF_REPO', '/repo')
 BUILD = os.path.join(VERIF, 'build')
 HARNESS = os.path.join(VERIF, 'harness')
-EVID = os.path.join(VERIF, 'evidence') if REPO == '/repo' else os.environ.get('VERIF_EVIDENCE_DIR', '/dev/shm/jlsverif-mutant-evidence')
+EVID = os.environ.get('VERIF_EVIDENCE_DIR') or (os.path.join(VERIF, 'evidence') if REPO == '/repo' else '/dev/shm/jlsverif-mutant-evidence')
 JOBS = int(os.environ.get('VERIF_JOBS', '16'))
 
 LIB_SOURCES = ['bit_shift', 'buffer', 'datatype', 'copy', 'core', 'crc32c', 'ec', 'log', 'msg_ring_buffer', 'raw', 'tmap',
